@@ -168,3 +168,12 @@ Proof. fcbv. apply f_equal. list_eq; div_congr. Qed.
 
 End G.
 
+(* NormalizedPairwiseImageLoss: the default normalisation factor is max_difference^2 of the images that were given --
+   of the one image when only source or only target is given -- and an explicit norm wins; norm=False disables it *)
+Lemma norm_defaults_ok :
+  gen_norm_defaults =
+  [("source", "max_difference(source, source)^2"); ("target", "max_difference(target, target)^2");
+   ("source, target", "max_difference(source, target)^2"); ("target, norm=True", "max_difference(target, target)^2");
+   ("source, norm=True", "max_difference(source, source)^2"); ("source, target, norm=False", "None");
+   ("norm=c", "c"); ("source, target, norm=c", "c"); ("nothing", "None")]%string.
+Proof. reflexivity. Qed.
